@@ -384,6 +384,7 @@ func init() {
 	register(&Prop{
 		ID: "C15",
 		Rule: "registry: every advertised name (exhaustive) is instantiated and its configuration compared field by field with an independent strict parser of the name; list, known-suite test and lookup must agree; parser: every string of the grammar OCRA-1:HOTP-<3 hashes>-<0..11>:[C-]Q<N|A|H><08|10>[-PSHA<1|256|512>][-S|-S064|-S128|-S512][-T<1..59>S|<1..59>M|<1..48>H] (1 442 880 strings; thorough enumerates all, quick every 11th plus boundary time values) is either rejected or accepted with exactly the meaning of the string and String() equal to it; ~350 malformed strings (wrong version, missing/extra parts, unknown tokens), every single-bit flip of good strings, good strings with one letter replaced by its Unicode case-folding look-alike (U+017F, U+212A, U+0131/0130) or full-width form must be rejected; numeric fields written with many digits, incl. time values whose product with 60/3600 overflows 32 or 64 bits, must be rejected or represented exactly; case variants are judged by a case-folding reference and must report their own spelling; " +
+			"a reduced differential against the same reference models also runs in a binary built for GOARCH=386 (32-bit int/uint; observed.evaluations_on_a_32bit_build); " +
 			"distinct_nontrivial counts advertised names + accepted grammar strings + malformed strings",
 		Run: func(c *Ctx) {
 			r := c.R
@@ -447,6 +448,7 @@ func init() {
 			largeNumberStrings(func(n, class string) { cases = append(cases, nameCase{Name: n, Class: class}) })
 			unicodeFoldStrings(func(n, class string) { cases = append(cases, nameCase{Name: n, Class: class}) })
 			repeatedTokenStrings(func(n, class string) { cases = append(cases, nameCase{Name: n, Class: class}) })
+			runArch386(c)
 			bitFlipStrings(func(n, class string) {
 				if !seen[n] {
 					cases = append(cases, nameCase{Name: n, Class: class})
